@@ -92,6 +92,9 @@ pub struct CaseOut {
     pub classes: BTreeMap<String, u64>,
     pub excluded_known: u64,
     pub violation: Option<String>,
+    /// the case to store in the replay file when it differs from the generated input (e.g. the input plus the fault
+    /// position the check enumerated on top of it)
+    pub replay_case: Option<Value>,
 }
 
 #[derive(Clone, Debug)]
@@ -189,11 +192,15 @@ where
     let per = (cases as usize + nt - 1) / nt;
     let result = Mutex::new(Vec::<(usize, Block)>::new());
     let stream_base = hash_str(name);
+    // set by the first worker that finds a violation: the others stop generating (they would each shrink a failure of
+    // their own for minutes); which worker wins does not change the verdict, only which minimal case is reported
+    let found = std::sync::atomic::AtomicBool::new(false);
     std::thread::scope(|sc| {
         for t in 0..nt {
             let make_strategy = &make_strategy;
             let eval = &eval;
             let result = &result;
+            let found = &found;
             let kind = kind.to_string();
             let name = name.to_string();
             sc.spawn(move || {
@@ -209,6 +216,9 @@ where
                 let frozen = std::cell::Cell::new(false);
                 let blk = std::cell::RefCell::new(&mut block);
                 let r = runner.run(&strategy, |case| {
+                    if !frozen.get() && found.load(std::sync::atomic::Ordering::Relaxed) {
+                        return Ok(());
+                    }
                     let out = eval(&case);
                     if !frozen.get() {
                         blk.borrow_mut().record(&out, || serde_json::to_value(&case).unwrap_or(Value::Null));
@@ -216,6 +226,7 @@ where
                     match out.violation {
                         Some(m) => {
                             frozen.set(true);
+                            found.store(true, std::sync::atomic::Ordering::Relaxed);
                             Err(TestCaseError::fail(m))
                         }
                         None => Ok(()),
@@ -228,7 +239,8 @@ where
                             // message of the minimal case: re-evaluate
                             let out = eval(&case);
                             let msg = out.violation.unwrap_or_else(|| "violation did not reproduce on the shrunk case".to_string());
-                            block.failure = Some(Failure { message: msg, case: serde_json::to_value(&case).unwrap_or(Value::Null), kind });
+                            let stored = out.replay_case.unwrap_or_else(|| serde_json::to_value(&case).unwrap_or(Value::Null));
+                            block.failure = Some(Failure { message: msg, case: stored, kind });
                         }
                         TestError::Abort(r) => {
                             block.failure = Some(Failure { message: format!("generator aborted: {}", r), case: Value::Null, kind: "abort".into() });
